@@ -97,7 +97,14 @@ def fresh_one(g):
         return {"worker_error": str(e)[:300]}
 
 
+def cmpable(r):
+    """what is compared between a grading in a history and its fresh run: everything but the state the caller's objects
+    were in BEFORE the grading (that is the history itself)"""
+    return {k: v for k, v in r.items() if k != "caller_before"}
+
+
 def diff_fields(a, b):
+    a, b = cmpable(a), cmpable(b)
     out = []
     for k in sorted(set(a) | set(b)):
         if a.get(k) != b.get(k):
@@ -216,7 +223,7 @@ def history_results(h):
 
 def still_differs(h, fresh_last):
     out = history_results(h)[-1]
-    return out != fresh_last and "worker_error" not in out
+    return cmpable(out) != cmpable(fresh_last) and "worker_error" not in out
 
 
 def shrink_history(h, i, fresh_last):
@@ -242,7 +249,12 @@ def search(rng, tier, broken, corr):
     t0 = time.time()
     info = {"rule": "every grading of corpus + seeded random histories (instructor scripts assembled from %d state-touching "
                     "fragments incl. crashes at any position, %d submissions, environments standard/blockpy/terminal/gradescope, "
-                    "skip_tifa/skip_run, immediate repetitions; plus every fragment, alone and followed by a crash, right "
+                    "skip_tifa/skip_run, immediate repetitions; a third of the generated gradings and all reuse-* histories hand in "
+                    "the CALLER'S OWN objects again - the same Submission object or a new Submission around the same files dict, "
+                    "graded twice by the same script, after a crash, and then by other scripts; explicit-report-* histories pass "
+                    "the caller's own Report object to the environment and to every command - and after every grading the "
+                    "caller's Submission / files dict must be as the caller made them (main file, main code, files, line "
+                    "offsets, metadata); plus every fragment, alone and followed by a crash, right "
                     "before each of %d probe gradings - all fragments in thorough, 6 sampled ones in quick), run by "
                     "Bundle.run_ics_bundle one after the other in ONE "
                     "interpreter, compared with the same grading run first in a FRESH interpreter on (label, title, message, "
@@ -254,18 +266,28 @@ def search(rng, tier, broken, corr):
     n_hist = (8 if tier == "quick" else 70) * (2 if broken else 1)
     len_hist = 40 if tier == "quick" else 110
     pool = [gen.gen_grading(rng) for _ in range(n_pool)]
-    histories = [(name, h) for name, h in gen.CORPUS]
+    # the caller keeps some of its Submission objects / files dicts and hands them in again
+    pool = [gen.kept_by_caller(g, rng) if rng.random() < 0.3 else g for g in pool]
+    histories = [(name, h) for name, h in gen.CORPUS] + list(gen.REUSE_CORPUS)
     for k in range(n_hist):
         h = []
         while len(h) < len_hist:
             g = rng.choice(pool)
             h.append(g)
-            if rng.random() < 0.08:
+            if rng.random() < 0.08 or ("share" in g and rng.random() < 0.3):
                 h.append(g)                     # the same pair twice in a row
         histories.append(("random-%d" % k, h))
     # every fragment (also followed by a crash) right before every probe: all of them in thorough, a sample in quick
     frs = list(gen.PLAIN) if tier == "thorough" else rng.sample(gen.PLAIN, 6)
     histories += gen.systematic_histories(frs)
+    # caller-owned objects: every fragment that touches the submission's code, plus the sampled ones, graded twice and
+    # followed by other scripts on the SAME Submission object / the same files dict
+    reuse = [f for f in gen.PLAIN if f.startswith(("sections", "set_source", "submission", "recontext", "verify", "clear"))]
+    reuse += [f for f in (frs if tier == "thorough" else frs[:3]) if f not in reuse]
+    histories += gen.reuse_histories(reuse, wide=(tier == "thorough"))
+    # the caller's own Report object passed explicitly to every grading of a history
+    xfr = [f for f, _ in gen.XFRAGMENTS]
+    histories += gen.explicit_report_histories(xfr if tier == "thorough" else rng.sample(xfr, 5))
     for name, a, b in gen.INTERPRETER_STATE:
         histories.append(("interpreter:" + name, [
             {"frags": ["nothing"], "sub": name, "script": gen.H, "code": a, "env": "standard"},
@@ -281,28 +303,57 @@ def search(rng, tier, broken, corr):
     info["t_fresh_s"] = round(time.time() - t0, 1)
     outs = pmap(lambda nh: history_results(nh[1]), histories)
     info["t_histories_s"] = round(time.time() - t0, 1)
-    found = {}
+    found, changed = {}, {}
     for (name, h), res in zip(histories, outs):
+        tainted = set()
         for i, (g, o) in enumerate(zip(h, res)):
             f = fresh[gen.key(g)]
             if "worker_error" in f or "worker_error" in o:
                 info["skipped"]["worker-error"] = info["skipped"].get("worker-error", 0) + 1
                 info["last_worker_error"] = (f.get("worker_error") or o.get("worker_error"))
                 continue
+            if g.get("share_id") in tainted:
+                # an earlier grading of this history, of a kind that is generated with caller-owned objects only behind
+                # the gate, turned out to leave this object changed (a script that raised while sections were active)
+                info["skipped"]["object-changed-by-gated-input"] = info["skipped"].get("object-changed-by-gated-input", 0) + 1
+                continue
             info["evaluations"] += 1
             if i > 0:
                 info["distinct_nontrivial"] += 1
-            if o != f:
+            if "share" in g:
+                info["reused_objects"] = info.get("reused_objects", 0) + 1
+            # the caller's own objects (Submission, files dict) are as the caller made them, unless the script is one
+            # of those meant / known to change them (generated only behind the gate)
+            if f.get("caller_after"):
+                reasons = gen.reuse_gated_reasons(g, f)
+                if gen.gate_open(reasons):
+                    changed.setdefault((tuple(f["caller_after"]), "+".join(reasons) or None), g)
+                elif g.get("share_id"):
+                    tainted.add(g["share_id"])
+            if cmpable(o) != cmpable(f):
                 kind = name if name.startswith("interpreter:") else "history"
                 found.setdefault((kind, tuple(diff_fields(o, f))), (name, h, i, o, f))
     failures = []
+    for (fields, reason), g in list(changed.items())[:4]:
+        f = fresh_one(g)
+        if list(fields) != f.get("caller_after"):
+            info["skipped"]["fresh-result-not-reproducible"] = info["skipped"].get("fresh-result-not-reproducible", 0) + 1
+            continue
+        sig = {"kind": "caller-object-changed", "fields": list(fields)}
+        if reason:
+            sig["input"] = reason
+        failures.append(Failure(sig, "one grading in a fresh interpreter (%s on submission %r, %s) leaves the caller's Submission / files "
+                                     "dict changed in %s: the next grading of the same object sees something else than the student "
+                                     "handed in" % ("+".join(g.get("frags", [])), g.get("sub"), g.get("env"), list(fields)),
+                                {"history": [dict(gen.wire(g), frags=g.get("frags"), sub=g.get("sub"))], "fresh": f,
+                                 "caller_changed": list(fields)}))
     # a broken reset shows up in many gradings: three shrunk witnesses are enough (plus the interpreter probes)
     items = [kv for kv in found.items() if kv[0][0] != "history"] + [kv for kv in found.items() if kv[0][0] == "history"][:3]
     for (kind, differs), (name, h, i, o, f) in items:
         g = h[i]
         # the fresh result must itself be reproducible, otherwise this is not a history effect
         f2 = fresh_one(g)
-        if f2 != f:
+        if cmpable(f2) != cmpable(f):
             info["skipped"]["fresh-result-not-reproducible"] = info["skipped"].get("fresh-result-not-reproducible", 0) + 1
             continue
         small = shrink_history(h, i, f) if i > 0 else [g]
@@ -315,6 +366,11 @@ def search(rng, tier, broken, corr):
         else:
             sig = {"kind": "history-dependence", "after": sorted({x for gg in small[:-1] for x in gg.get("frags", [])}),
                    "differs": diff_fields(got, f)}
+            if "share" in g:
+                # only when the caller hands the same objects in again; the twin with fresh objects does not differ
+                twin = [{k: v for k, v in gg.items() if k not in ("share", "share_id")} for gg in small]
+                if not still_differs(twin, fresh_one(twin[-1])):
+                    sig["reused"] = g["share"]
         what = ("after %d earlier grading(s) [%s] the grading (%s on submission %r, %s) gives %s instead of %s" % (
             len(small) - 1, "; ".join("+".join(gg.get("frags", [])) for gg in small[:-1]), "+".join(g.get("frags", [])),
             g.get("sub"), g.get("env"), _brief(got), _brief(f)))
@@ -349,7 +405,10 @@ def replay(payload):
     print("==== fresh interpreter :", json.dumps(fresh, indent=1))
     print("==== after the history :", json.dumps(got, indent=1))
     print("==== differs in        :", diff_fields(got, fresh))
-    return 1 if got != fresh else 0
+    if rp.get("caller_changed"):
+        print("==== the caller's objects after this one grading differ from how they were made in:", fresh.get("caller_after"))
+        return 1 if fresh.get("caller_after") else 0
+    return 1 if cmpable(got) != cmpable(fresh) else 0
 
 
 if __name__ == "__main__":
